@@ -30,6 +30,17 @@ static void op_SchnorrSign(const jv *in, jout *out) {
     kret = secp256k1_keypair_create(CTX, &kp, key);
     jo_int(out, "kret", kret);
     if (!kret) { jo_int(out, "ret", 0); return; }
+    /* "alias": 1 = the auxiliary randomness is staged at sig[0..31], 2 = the message (at most 32 bytes) at sig[32..63] -- the buffer that
+     * receives the signature (spec/api/Aliasing.tla); modes with a caller-written nonce function are left alone */
+    { long al = jv_int(in, "alias", 0); const unsigned char *pa = has_aux ? aux : NULL; const unsigned char *pm = VH_MSG;
+      if (al && mode != 3 && mode != 5) {
+        if (al == 1 && has_aux) { memcpy(sig, aux, 32); pa = sig; }
+        else if (al == 2 && mlen <= 32) { memcpy(sig + 32, VH_MSG, (size_t)mlen); pm = sig + 32; }
+        if (mode == 0) ret = secp256k1_schnorrsig_sign32(CTX, sig, pm, &kp, pa);
+        else if (mode == 1) ret = secp256k1_schnorrsig_sign_custom(CTX, sig, pm, (size_t)mlen, &kp, NULL);
+        else { if (mode == 4) ep.noncefp = secp256k1_nonce_function_bip340; ep.ndata = (void*)pa; ret = secp256k1_schnorrsig_sign_custom(CTX, sig, pm, (size_t)mlen, &kp, &ep); }
+        jo_int(out, "ret", ret); jo_bytes(out, "sig", sig, 64); return;
+      } }
     if (mode == 0) ret = secp256k1_schnorrsig_sign32(CTX, sig, VH_MSG, &kp, has_aux ? aux : NULL);
     else if (mode == 1) ret = secp256k1_schnorrsig_sign_custom(CTX, sig, VH_MSG, (size_t)mlen, &kp, NULL);
     else if (mode == 2) { ep.ndata = has_aux ? aux : NULL; ret = secp256k1_schnorrsig_sign_custom(CTX, sig, VH_MSG, (size_t)mlen, &kp, &ep); }
